@@ -67,13 +67,14 @@ type Op struct {
 
 // Case is a complete history with its configuration.
 type Case struct {
-	Property string `json:"property,omitempty"`
-	Profile  string `json:"profile,omitempty"`
-	Config   Config `json:"config"`
-	Alt      Config `json:"altConfig"`
-	Ops      []Op   `json:"ops"`
-	RmProbe  bool   `json:"removeProbe,omitempty"` // a plain call is started by another goroutine at the moment the library hands a connection to RemoveSubConn
-	Failure  *Fail  `json:"failure,omitempty"`
+	Property  string `json:"property,omitempty"`
+	Profile   string `json:"profile,omitempty"`
+	Config    Config `json:"config"`
+	Alt       Config `json:"altConfig"`
+	Ops       []Op   `json:"ops"`
+	CloseTail bool   `json:"closeTail,omitempty"`   // after the history the balancer is closed, then the calls still open complete and a few calls are started on the last pickers (only "no panic, returns")
+	RmProbe   bool   `json:"removeProbe,omitempty"` // a plain call is started by another goroutine at the moment the library hands a connection to RemoveSubConn
+	Failure   *Fail  `json:"failure,omitempty"`
 }
 
 // Fail describes an oracle failure.
